@@ -25,7 +25,11 @@ TRUSTED = ('Path objects are built from component lists by the real constructor 
            'path algebra itself (normpath, expanduser, splitdrive) is the subject of C12, here only its use',
            'the pre-fix regular expression (^|/)..(?=/|$) is validated against the model variant fixed=false by '
            'running Python re.sub on it inside the harness (it no longer exists in /repo since 7c2d988)',
-           'escaping of target names is taken as given (its injectivity is an explicit hypothesis, C04)')
+           'the keys of the duplicate check are the C04 writers escape_str(target) / escape_str(output) on plain strings '
+           '(tied here as W:keys and under C04 as W:escape_str); their injectivity is proved (C05_make_target_key_injective '
+           'for names not beginning with a backslash, C05_ninja_output_key_injective for every string) and no longer a '
+           'hypothesis: C05_distinct_outputs_accepted_make / _ninja; keys of Path objects with variable bits are covered '
+           'by the W:emit tie and the duplicates oracle only')
 EXPLANATION = ''
 
 OLD_RE = r'(^|/)..(?=/|$)'
@@ -861,6 +865,64 @@ def stage_oracle_duplicates(rep, rng, n):
     return bad
 
 
+def stage_keys(rep, rng, n, sweep_len):
+    """Glue C05 <- C04 (C05_make_target_key, C05_ninja_output_key, C05_*_key_injective): the keys of the duplicate check,
+    Makefile._target_str / NinjaFile._output_str, are on plain strings the C04 writers escape_str(target) /
+    escape_str(output) of the model; and, directly on the implementation, distinct names get distinct keys (Make: among
+    names that do not begin with a backslash)."""
+    from . import gen
+    from bfg9000.backends.make import syntax as msyn
+    from bfg9000.backends.ninja import syntax as nsyn
+    _, us = gen.uni_tables()
+    mf = msyn.Makefile('build.bfg', False, gnu=True)
+    nf = nsyn.NinjaFile('build.bfg')
+    alpha = ['a', 'b', '\\', '~', '$', ':', ' ', '#', '%', '|', '*', '?', '[', ']', ';', '=', ',', '\t', '.', '/', '\n']
+    names = ['a.o', 'a b.o', 'x$y', 'x$$y', 'ab:c', 'a#b', 'a\\#b', 'a\\\\#b', 'a%b', '~x', '\\~x', 'a~', 'a\\', 'a\\ b', 'p.int/a.o',
+             'a$ b', 'a$:b', '$', '$$', ':', ' ', 'a\nb', '']
+    for _ in range(n):
+        names.append(''.join(rng.choice(alpha) for _ in range(rng.randint(1, 6))))
+    names = list(dict.fromkeys(names))
+
+    def key(f, s):
+        try:
+            return f(s)
+        except ValueError:
+            return None
+    calls, res = [], []
+    for s in names:
+        calls.append(('make.escape_str', [us, s, 0])); res.append(key(mf._target_str, s))
+        calls.append(('ninja.escape_str', [s, 0])); res.append(key(nf._output_str, s))
+        rep.case('key:%r' % (s,), any(c in s for c in '\\~$: #%'))
+    dis = [(c, iv, mv) for _, c, iv, mv in
+           common.compare_model(rep, 'W:keys(_target_str,_output_str)', calls, res, lambda nm, r: common.d_opt(d_str, r))]
+    # direct oracle: injectivity of the real keys, exhaustively over short strings of the characters the writers treat
+    small = ['a', '\\', '~', '$', ':', ' ', '#']
+    bad = 0
+    cases = 0
+    mseen, nseen = {}, {}
+    for ln in range(0, sweep_len + 1):
+        for t in itertools.product(small, repeat=ln):
+            s = ''.join(t)
+            cases += 1
+            nk = nf._output_str(s)
+            if nseen.setdefault(nk, s) != s:
+                bad += 1
+                rep.fail('NinjaFile._output_str gives the distinct outputs %r and %r one key %r: the second would be rejected as a '
+                         'duplicate' % (nseen[nk], s, nk), {'kind': 'keys', 'backend': 'ninja', 'names': [nseen[nk], s], 'key': nk})
+            if s.startswith('\\'):
+                continue
+            mk = mf._target_str(s)
+            if mseen.setdefault(mk, s) != s:
+                bad += 1
+                rep.fail('Makefile._target_str gives the distinct targets %r and %r (neither begins with a backslash) one key %r: the '
+                         'second would be rejected as a duplicate' % (mseen[mk], s, mk),
+                         {'kind': 'keys', 'backend': 'make', 'names': [mseen[mk], s], 'key': mk})
+    rep.stage('oracle:key injectivity', cases=cases, failures=bad,
+              note='all strings of length <= %d over %r; Make only for names not beginning with a backslash '
+                   '(C05_distinct_outputs_make_backslash_refuted: ~x and \\~x share the key \\~x)' % (sweep_len, ''.join(small)))
+    return dis, bad
+
+
 def run(rep):
     rng = random.Random(rep.seed)
     thorough = rep.tier == 'thorough'
@@ -874,6 +936,8 @@ def run(rep):
     dis += [('W:within', ) + x for x in stage_w_within(rep, rng, n, fixed, corpus)]
     dis += [('W:regex', ) + x[1:] for x in stage_w_regex(rep, rng, n // 3)]
     dis += [('W:emit', ) + x for x in stage_w_emit(rep, rng, n // 6)]
+    kdis, kbad = stage_keys(rep, rng, n // 3, 6 if thorough else 5)
+    dis += [('W:keys', ) + x for x in kdis]
     scratch = common.scratch('c05')
     try:
         ctx = Ctx(scratch)
@@ -883,6 +947,7 @@ def run(rep):
         found += stage_oracle_objects(rep, rng, (600 if thorough else 120) * (5 if dis else 1), ctx)
     finally:
         shutil.rmtree(scratch, ignore_errors=True)
+    found += kbad
     found += stage_oracle_duplicates(rep, rng, 2000 if thorough else 300)
     found += stage_system(rep, rng, 40 if thorough else 6, 6 if thorough else 1)
     if dis and not found:
